@@ -30,6 +30,8 @@ MCNext ==
        \/ WRename(w) /\ Log(Step(w, "WRename", ""))
        \/ WReturn(w) /\ Log(Step(w, "WReturn", ""))
        \/ ~NoCrash /\ WCrash(w) /\ Log(Step(w, "WCrash", ""))
+          \* the write to the temporary file fails (file size limit, disk full): the store cleans up and returns an error
+       \/ wpc[w] = "created" /\ file[Cur(w)].chunks = 0 /\ WFailCleanup(w) /\ Log(Step(w, "WFail", ""))
   \/ \E r \in Readers :
        \/ \E u \in URLs : RBegin(r, u) /\ Log(Step(r, "RBegin", u))
        \/ ROpen(r) /\ Log(Step(r, "ROpen", ""))
